@@ -188,6 +188,18 @@ def doBisim (A B : Automaton) : String :=
       s!"bisim ok pairs={(π.toList.filter (·.isSome)).length}"
     else "bisim mismatch path=- at=0,0 why=pairing found by search is rejected by the verified checker"
 
+@[noinline] def partB (g : Grammar) (a : Automaton) (c : Cert) (part : String) : Option Bool :=
+  if part == "wf" then some (decide (VWf g a c))
+  else if part == "start" then some (decide (VStart g c))
+  else if part == "trans" then some (decide (VTrans g a c))
+  else if part == "closure" then some (decide (VClosure g c))
+  else if part == "complete" then some (decide (VComplete g a c))
+  else if part == "kernel" then some (decide (VKernel g a c))
+  else if part == "order" then some (decide (VOrder g c))
+  else if part == "actjust" then some (decide (VActJust g a c))
+  else if part == "first" then some (decide (VFirst g c))
+  else none
+
 structure St where
   auts : Std.HashMap String Automaton := {}
   rules : Std.HashMap String (List Rule) := {}
@@ -217,6 +229,12 @@ def handlePure (st : St) (line : String) : St × String :=
     match st.auts[slot]?, st.gram, st.cert with
     | some a, some g, some c =>
       (st, if validB g a c then "valid" else "invalid " ++ validWhy g a c)
+    | _, _, _ => (st, "bad-op")
+  | ["LRPART", slot, part] =>
+    match st.auts[slot]?, st.gram, st.cert with
+    | some a, some g, some c =>
+      let r : Option Bool := partB g a c part
+      (st, match r with | some b => s!"{part} {b}" | none => "bad-op")
     | _, _, _ => (st, "bad-op")
   | ["RUN", slot, fuel, syms] =>
     match st.auts[slot]?, fuel.toNat?, parseNats (fld syms) with
